@@ -182,7 +182,81 @@ def _exhaustive(ctx: Ctx, reserve: float):
     ctx.count("exhaustive.combinations_planned", len(plan))
 
 
+def _prepared_requests_case(ctx: Ctx, case, suite: str = "prepared_requests"):
+    """From the application's side: every write request that prepare_write produces for a state (whatever the batcher
+    turns it into) is staged and written exactly once by the save pipeline, and every read request of a restore is
+    executed - observed as: every payload location named by the committed manifest was written exactly once, holds at
+    least the named byte range, and a restore gives the state back.  States are rich in zero-element tensors and tensors
+    at the slab threshold."""
+    import os
+    import gen
+    import sim
+    from torchsnapshot import Snapshot
+    from torchsnapshot.manifest import ChunkedTensorEntry, ObjectEntry, TensorEntry
+    ROOT = "/snap/c11"
+    tree = gen.build_tree(case["state"])
+    saved = gen.deep_clone(tree)
+    world = sim.World(1)
+    inp = dict(case, prepared_requests=True)
+    with sim.knobs(**case["knobs"]):
+        try:
+            world.run1(lambda: Snapshot.take(ROOT, {"s": gen.RecStateful(tree)}))
+        except Exception as e:  # noqa
+            ctx.fail("request-not-executed", f"take raised {type(e).__name__}: {str(e)[:200]}", inp, None, suite=suite)
+            return
+    manifest = world.run1(lambda: Snapshot(ROOT).get_manifest())
+    files = world.storage.snapshot_files()
+    counts = {}
+    for e in world.storage.writes():
+        counts[e["raw"]] = counts.get(e["raw"], 0) + 1
+    units = []
+    for k, e in manifest.items():
+        if isinstance(e, ChunkedTensorEntry):
+            units += [(k, c.tensor.location, c.tensor.byte_range) for c in e.chunks]
+        elif isinstance(e, (TensorEntry, ObjectEntry)):
+            units.append((k, e.location, getattr(e, "byte_range", None)))
+    for k, loc, br in units:
+        if counts.get(loc, 0) != 1:
+            ctx.fail("request-not-executed-exactly-once", f"{k}: location {loc} was written {counts.get(loc, 0)} times", inp,
+                     {"key": k, "location": loc}, suite=suite)
+            break
+        data = files.get(os.path.normpath(os.path.join(ROOT, loc)))
+        if data is None or (br is not None and br[1] > len(data)):
+            ctx.fail("request-not-executed-exactly-once", f"{k}: {loc} {br} is not backed by written bytes", inp, {"key": k}, suite=suite)
+            break
+    else:
+        dst = gen.RecStateful({kk: None for kk in saved})
+        with sim.knobs(**case["restore_knobs"]):
+            try:
+                world.run1(lambda: Snapshot(ROOT).restore({"s": dst}))
+                d = gen.deep_eq(saved, dst.loaded)
+                if d is not None:
+                    ctx.fail("request-not-executed-exactly-once", "a read request was not executed: restored state differs", inp, {"diff": d}, suite=suite)
+            except Exception as e:  # noqa
+                ctx.fail("request-not-executed-exactly-once", f"restore raised {type(e).__name__}: {str(e)[:200]}", inp, None, suite=suite)
+    ctx.count("prepared.cases")
+    ctx.case(suite, {"knobs": case["knobs"], "units": len(units), "state": gen.short(case["state"])}, nontrivial=len(units) > 0, key=case)
+
+
+def _gen_prepared(rng):
+    import gen
+    import sim
+    items = []
+    for i in range(rng.randint(1, 5)):
+        r = rng.random()
+        if r < 0.35:
+            d = {"t": "tensor", "dtype": rng.choice(["float32", "int8", "bfloat16", "int64"]), "shape": rng.choice([[0], [0, 3], [2, 0]]), "data": [], "layout": "contig"}
+        elif r < 0.8:
+            d = gen.rand_tensor_desc(rng, 16)
+        else:
+            d = {"t": "obj", "kind": rng.choice(["set", "tuple"])}
+        items.append([gen.key_desc(f"k{i}"), d])
+    return {"state": {"t": "dict", "items": items}, "knobs": sim.rand_knobs(rng), "restore_knobs": sim.rand_knobs(rng)}
+
+
 def run(ctx: Ctx):
+    for _ in range(ctx.n(150, 2000)):
+        _prepared_requests_case(ctx, _gen_prepared(ctx.rng))
     _corpus(ctx)
     total = ctx.time_left()
     _random(ctx, ctx.n(1500, 15000), reserve=total * 0.45)
@@ -191,6 +265,11 @@ def run(ctx: Ctx):
 
 def replay(ctx: Ctx, rec):
     inp = rec["input"]
+    if inp.get("prepared_requests"):
+        _prepared_requests_case(ctx, {k: v for k, v in inp.items() if k != "prepared_requests"}, "replay")
+        for f in ctx.failures[:5]:
+            print("FAIL", f["sig"], f["what"])
+        return
     sim = S.rerun_input(inp)
     print("input   :", {k: inp[k] for k in ("mode", "reqs", "budget", "cap", "fail")})
     print("schedule:", inp["schedule"])
